@@ -95,7 +95,7 @@ func measureArity(w *world) [256]int {
 				code = append(code, push1(0)...)
 			}
 			code = append(code, byte(b))
-			r := run(w, w.open(code), code, config{entCall, 100000, 0, nil}, false)
+			r := run(w, w.open(code), common.Hash{}, code, config{entCall, 100000, 0, nil}, false)
 			if r.panicked || !strings.HasPrefix(r.err, "stack underflow") {
 				ar[b] = k
 				break
